@@ -4,6 +4,7 @@ import (
 	"bytes"
 	"fmt"
 	"math"
+	"reflect"
 
 	"github.com/xinchentechnote/fin-proto-go/codec"
 	"golang.org/x/exp/constraints"
@@ -530,6 +531,9 @@ func ExecPrim(b *bytes.Buffer, fn string, a map[string]any) (ret any, err error)
 			vals = make([]Codec, c)
 			for i := range vals {
 				vals[i] = cd
+			}
+			if _, ok := a["nilat"]; ok { // one entry is a nil pointer of the element type
+				vals[argInt(a, "nilat")] = reflect.Zero(reflect.TypeOf(o)).Interface().(Codec)
 			}
 		} else {
 			for _, x := range asList(a["objs"]) {
